@@ -7,6 +7,7 @@
 
 use crate::corpus;
 use crate::gs::{self, Gen, Printer, Profile, Style, GS};
+use crate::synx::{self, Mode, Repair};
 use crate::rng::hash_str;
 use crate::skel;
 use crate::sup::{default_shards, guard, Ctx, PropDef, Summary, Tier};
@@ -82,9 +83,52 @@ pub fn roundtrip(text: &str) -> Out {
   }
 }
 
-fn check_gs(ctx: &mut Ctx, g: &GS, text: &str, with_comments: bool) {
+/// None = the three C06 observations hold (or the text is rejected / panics: not C06's business)
+pub fn classify(text: &str, _g: &GS) -> Option<String> {
+  match roundtrip(text) {
+    Out::Bad("skel", d, _) => Some(format!("skel:{}", d)),
+    Out::Bad(k, _, _) => Some(k.to_string()),
+    _ => None,
+  }
+}
+
+fn nop_t1(_: &mut gs::GType1) {}
+fn nop_e(_: &mut gs::GEntry) {}
+
+fn rep_any_hash(g: &GS) -> GS {
+  gs::rewrite(
+    g,
+    &mut |t| {
+      if *t == gs::GType2::Any {
+        *t = gs::name("any");
+      }
+    },
+    &mut nop_t1,
+    &mut nop_e,
+  )
+}
+
+fn rep_major(g: &GS) -> GS {
+  gs::rewrite(
+    g,
+    &mut |t| {
+      if let gs::GType2::Major(..) = t {
+        *t = gs::name("uint");
+      }
+    },
+    &mut nop_t1,
+    &mut nop_e,
+  )
+}
+
+/// Labelled deviations (see synx): the formatter never writes commas, so the parser's
+/// '#'-followed-by-white-space deviations (C03-hash-any-ws) surface here as well.
+pub const REPAIRS: &[(&str, Repair)] = &[("nocomma-hash-any-before-paren-or-digit", rep_any_hash), ("nocomma-hash-major-before-paren", rep_major)];
+
+fn check_gs(ctx: &mut Ctx, g: &GS, text: &str, style: &Style, pseed: u64) {
   ctx.eval();
   let tags = gs::tags(g);
+  let with_comments = style.comment_pct > 0;
   match roundtrip(text) {
     Out::Rejected => ctx.count("rejected_docs_skipped"),
     Out::Panic(p) => {
@@ -105,30 +149,33 @@ fn check_gs(ctx: &mut Ctx, g: &GS, text: &str, with_comments: bool) {
     Out::Bad(kind, d, t1) => {
       ctx.count("accepted_docs");
       ctx.count(&format!("bad:{}", kind));
-      // shrink on the derivation (plain layout) while the same observation remains
-      let same = |o: &Out| match o {
-        Out::Bad(k, d2, _) => *k == kind && (kind != "skel" || *d2 == d),
-        _ => false,
-      };
-      let plain_same = same(&roundtrip(&gs::print_plain(g)));
-      let (sig, shrunk) = if plain_same {
-        let small = gs::shrink(g, false, 500, &mut |c| same(&roundtrip(&gs::print_plain(c))));
-        let st = gs::print_plain(&small);
-        let tg = gs::tags(&small).into_iter().collect::<Vec<_>>().join(",");
-        let sig = match kind {
-          "skel" => format!("skel:{}", d),
-          k => format!("{}:{}", k, tg),
-        };
-        (sig, st)
-      } else {
-        // only with this layout / these comments
-        let sig = match kind {
-          "skel" => format!("skel:{}:layout{}", d, if with_comments { "+comments" } else { "" }),
-          k => format!("{}:layout{}", k, if with_comments { "+comments" } else { "" }),
-        };
-        (sig, String::new())
-      };
-      ctx.report(&sig, json!({"D": text, "T1": t1, "kind": kind, "detail": d, "shrunk_D": shrunk, "shrunk_T1": cddl::cddl_from_str(&shrunk, false).map(|a| a.to_string()).unwrap_or_default()}));
+      // comment-free renderings first; if none of them reproduces the observation and the
+      // document has comments, the comments are what matters
+      let plain_modes = [Mode::Plain, Mode::NoComma, Mode::Spell(ctx.idx), Mode::NoCommaSpell(ctx.idx), Mode::Orig(Style { comment_pct: 0, ..style.clone() }, pseed)];
+      let class0 = classify(text, g).unwrap_or_default();
+      let reproduced_without_comments = plain_modes.iter().any(|m| classify(&synx::render(g, m), g).as_deref() == Some(class0.as_str()));
+      if with_comments && !reproduced_without_comments {
+        ctx.report(&format!("comments:{}", kind), json!({"D": text, "T1": t1, "kind": kind, "detail": d}));
+        // the comment-free rendering may disagree in its own way: judge it separately
+        let nc_mode = Mode::Orig(Style { comment_pct: 0, ..style.clone() }, pseed);
+        let t_nc = synx::render(g, &nc_mode);
+        if classify(&t_nc, g).is_some() {
+          if let Some(o) = synx::pipeline(g, &t_nc, ctx.idx, &plain_modes, &classify, &|c| c.split(':').next().unwrap_or(c).to_string(), REPAIRS, 1500) {
+            for sig in &o.sigs {
+              ctx.report(sig, json!({"D": t_nc, "kind": kind, "shrunk_D": o.shrunk_text, "mode": format!("{:?}", o.mode), "labels": o.labels}));
+            }
+          }
+        }
+        return;
+      }
+      let mut modes = plain_modes.to_vec();
+      modes.push(Mode::Orig(style.clone(), pseed));
+      if let Some(o) = synx::pipeline(g, text, ctx.idx, &modes, &classify, &|c| c.split(':').next().unwrap_or(c).to_string(), REPAIRS, 1500) {
+        let st1 = cddl::cddl_from_str(&o.shrunk_text, false).map(|a| a.to_string()).unwrap_or_default();
+        for sig in &o.sigs {
+          ctx.report(sig, json!({"D": text, "T1": t1, "kind": kind, "detail": d, "shrunk_D": o.shrunk_text, "shrunk_T1": st1, "mode": format!("{:?}", o.mode), "labels": o.labels}));
+        }
+      }
     }
   }
 }
@@ -169,15 +216,56 @@ fn check_text(ctx: &mut Ctx, origin: &str, text: &str) {
         }
       }
       let small = lines.join("\n") + "\n";
-      let sig = match kind {
-        "skel" => format!("skel:{}", d),
-        k => format!("{}:corpus", k),
+      // comments are what matters when the same document without its comments holds
+      let nc = strip_comments(&small);
+      let sig = if nc != small && matches!(roundtrip(&nc), Out::Held) {
+        format!("comments:{}", kind)
+      } else {
+        match kind {
+          "skel" => format!("skel:{}", d),
+          k => format!("{}:corpus", k),
+        }
       };
-      let has_comment = small.contains(';');
-      let sig = if has_comment && kind != "skel" { format!("{}+comments", sig) } else { sig };
       ctx.report(&sig, json!({"origin": origin, "D_shrunk": small, "T1": t1.chars().take(600).collect::<String>(), "kind": kind, "detail": d}));
     }
   }
+}
+
+/// remove every comment (from ';' outside a text or byte string literal to the end of the line)
+pub fn strip_comments(t: &str) -> String {
+  let mut o = String::new();
+  let mut it = t.chars().peekable();
+  let mut q: Option<char> = None;
+  while let Some(c) = it.next() {
+    match q {
+      Some(qc) => {
+        o.push(c);
+        if c == '\\' {
+          if let Some(n) = it.next() {
+            o.push(n);
+          }
+        } else if c == qc {
+          q = None;
+        }
+      }
+      None => match c {
+        '"' | '\'' => {
+          q = Some(c);
+          o.push(c);
+        }
+        ';' => {
+          while let Some(&n) = it.peek() {
+            if n == '\n' {
+              break;
+            }
+            it.next();
+          }
+        }
+        _ => o.push(c),
+      },
+    }
+  }
+  o
 }
 
 pub fn gen_doc(rng: &mut crate::rng::Rng, profile: Profile, comments: bool) -> (GS, String) {
@@ -197,13 +285,15 @@ pub fn gen_doc(rng: &mut crate::rng::Rng, profile: Profile, comments: bool) -> (
 fn run(ctx: &mut Ctx, idx: u64) {
   let mut rng = ctx.rng.clone();
   match idx % 8 {
-    0..=4 => {
-      let (g, text) = gen_doc(&mut rng, Profile::syntax(), false);
-      check_gs(ctx, &g, &text, false);
-    }
-    5 | 6 => {
-      let (g, text) = gen_doc(&mut rng, Profile::syntax(), true);
-      check_gs(ctx, &g, &text, true);
+    0..=6 => {
+      let g = {
+        let mut gen = Gen::new(&mut rng, Profile::syntax());
+        gen.schema()
+      };
+      let style = Style::random(&mut rng, idx % 8 >= 5);
+      let pseed = rng.next_u64();
+      let text = synx::render(&g, &Mode::Orig(style.clone(), pseed));
+      check_gs(ctx, &g, &text, &style, pseed);
     }
     _ => {
       let corp = corpus::schemas();
